@@ -19,8 +19,10 @@ RULE = ('Exhaustive single faults on one canonical document with every element k
         'document into which one out-event with a non-void reply or with an `out` formal is '
         'injected at a reachable interface must not parse. Non-trivial: first mutation >= 3 levels '
         'below the root; distinct by document hash. Thorough adds an atheris (libFuzzer) campaign '
-        'on the same test function when atheris is importable.')
-ASSUMPTIONS = ['documents are valid JSON (produced with orjson.dumps); nesting depth <= ~25',
+        'on the same test function when atheris is importable. Clause deep_nesting: 1-512 nested namespaces '
+        '(and equally deep junk inside an unknown element) around a well-formed / malformed element.')
+ASSUMPTIONS = ['documents are valid JSON; generated documents nest <= ~25 levels, the clause deep_nesting '
+               'goes up to the 1024 levels the JSON decoder accepts (1-512 nested namespaces)',
                '`inout` formals on out events are not judged (the statement names `out` only)']
 SHARDS = {'thorough': 16}
 
@@ -100,6 +102,66 @@ def check_bad_out_event(case):
     except allowed_errors():
         return
     raise Fail(f'a document with an out event {case["event"]} was accepted', 'bad-out-accepted')
+
+
+# ---- documents nested as deeply as the JSON decoder accepts
+
+DEPTHS = [1, 10, 60, 150, 250, 350, 420] + list(range(440, 514, 2))
+BOTTOMS = ['enum', 'component', 'component-without-ports', 'interface-bad-out-event', 'junk-in-unknown']
+
+
+def deep_cases():
+    for d in DEPTHS:
+        for b in BOTTOMS:
+            yield {'depth': d, 'bottom': b}
+
+
+def deep_document(case):
+    import json
+    name = lambda n: {'<class>': 'scope_name', 'ids': [n]}  # noqa: E731
+    b = case['bottom']
+    if b == 'enum':
+        inner = [{'<class>': 'enum', 'name': name('E'), 'fields': {'<class>': 'fields', 'elements': ['A']}}]
+    elif b.startswith('component'):
+        inner = [{'<class>': 'component', 'name': name('C'),
+                  'ports': {'<class>': 'ports', 'elements': []}}]
+        if b.endswith('without-ports'):
+            del inner[0]['ports']
+    elif b == 'interface-bad-out-event':
+        inner = [to_json({'root': [{'k': 'interface', 'name': ['I'], 'types': [], 'events': [
+            {'name': 'e', 'dir': 'out', 'ret': ['bool'], 'formals': []}]}], 'wd': '/w'})['elements'][0]]
+    else:
+        junk = 0
+        for _ in range(case['depth']):
+            junk = {'x': [junk]}
+        return json.dumps({'<class>': 'root', 'working-directory': '/w', 'elements': [
+            {'<class>': 'behaviour-of-the-future', 'name': name('B'), 'statement': junk}]}).encode()
+    for i in range(case['depth']):
+        inner = [{'<class>': 'namespace', 'name': name(f'N{i}'), 'elements': inner}]
+    return json.dumps({'<class>': 'root', 'working-directory': '/w', 'elements': inner}).encode()
+
+
+def check_deep(case):
+    """Whatever the nesting depth: file contents or a documented error.  (A document the JSON
+    decoder itself refuses - orjson stops at 1024 levels - is not a JSON document for the parser.)"""
+    from dznpy.ast import FileContents
+    data = deep_document(case)
+    try:
+        res = parse_bytes(data)
+    except allowed_errors():
+        if case['bottom'] in ('enum', 'component') and case['depth'] <= 350:
+            raise Fail(f'a well-formed document with {case["depth"]} nested namespaces is refused',
+                       'deep:refused') from None
+        return
+    except orjson.JSONDecodeError:
+        return
+    if not isinstance(res, FileContents):
+        raise Fail(f'process() returned {type(res).__name__}', 'return-type')
+    if case['bottom'] in ('component-without-ports', 'interface-bad-out-event'):
+        raise Fail(f'malformed element below {case["depth"]} namespaces was accepted', 'deep:accepted')
+    if case['bottom'] == 'enum' and (len(res.enums) != 1 or len(res.enums[0].fqn.items) != case['depth'] + 1):
+        raise Fail(f'enum below {case["depth"]} namespaces: parsed as '
+                   f'{[len(e.fqn.items) for e in res.enums]} identifiers', 'deep:fqn')
 
 
 # ---- exhaustive single faults on one canonical document that holds every element kind
@@ -212,6 +274,9 @@ def run(ctx):
     ctx.extra['exhaustive_part'] = ('every slot of one canonical document holding all element kinds x '
                                     '{delete, 18 retypings, 26 hostile strings, every class tag, empty / '
                                     'duplicated list}')
+    ctx.enumerate('deep_nesting', deep_cases(), check_deep, nontrivial=lambda c: c['depth'] >= 60,
+                  labels=lambda c: ['deep', 'depth>=440' if c['depth'] >= 440 else 'depth<440',
+                                    c['bottom']])
     mutated = st.fixed_dictionaries({'model': gen_doc.doc_model(max_depth=4),
                                      'noise': gen_doc.noise(), 'mutations': mutate_json.mutations})
     raw = gen_doc.json_junk.map(lambda v: {'raw': v})
